@@ -445,7 +445,7 @@ static void run_C13(const Args &a, long cs) {
 		co = {{}, {}, {}}; unsigned rg[3] = {3, 4, 2}; for (int d = 0; d < 3; d++) for (unsigned i = 0; i < rg[d]; i++) co[d].push_back(kn[d][ord[d]] + (kn[d][kn[d].size() - ord[d] - 1] - kn[d][ord[d]]) * r.U() * (d == 0 ? 0.5 : 1.0) - (d == 0 ? 2.5 : 0.7));
 		ranges = {3, 4, 2}; idx.clear(); w.clear(); p.y.clear(); size_t npts = 5 + r.below(5);
 		for (size_t i = 0; i < npts; i++) { idx.push_back({(unsigned)r.below(3), (unsigned)r.below(4), (unsigned)r.below(2)}); w.push_back(r.coin(0.2) ? 0.0 : (r.coin(0.5) ? 2.5 : 1.0)); p.y.push_back((r.U() - 0.5) * 4); }
-		monodim = 0; p.ord = ord; p.por = por; p.kn = kn; p.co = co; p.lam = lam; p.n = {8, 2, 6}; p.ntot = 96; p.kind = "ill-posed-template";
+		monodim = 0; p.ord = ord; p.por = por; p.kn = kn; p.co = co; p.lam = lam; p.n = {8, 2, 6}; p.ntot = 96; p.kind = "ill-posed-template"; p.idx = idx; p.w = w;
 		applied.push_back("ill-posed:template(3-d,few-points,monotonic-cubic,vanishing-penalty)");
 	}
 	for (int q = 0; q < ncorr; q++) {
